@@ -134,10 +134,15 @@ class FaultFS:
             return _Proxy(ffs, real_open(file, mode, *a, **k), path)
 
         def f_makedirs(name, *a, **k):
-            if not ffs.inside(name):
+            # os.makedirs recurses through the module attribute: count the outermost call only
+            if not ffs.inside(name) or ffs._depth:
                 return real_makedirs(name, *a, **k)
             ffs.event(("makedirs", os.path.abspath(os.fspath(name))))
-            return real_makedirs(name, *a, **k)
+            ffs._depth += 1
+            try:
+                return real_makedirs(name, *a, **k)
+            finally:
+                ffs._depth -= 1
 
         def f_is_file(self_):
             if not ffs.inside(self_):
